@@ -207,6 +207,8 @@ func rulesC05(c *Ctx) {
 	R := c.R
 	R.Rule("R1", "melt op / poll: spend + PAID only behind success facts; release + UNPAID only behind definitive-failure facts after a Failed pay; completeness on both edges; constants and preimage written", 30)
 	R.Rule("R2", "Lightning answer status is read only where the paired error is nil or after the Failed override", 4)
+	R.Rule("R6", "the melt-quote poll asks the backend whenever the stored state is PENDING (once the backend knows the outcome the next poll adopts it)", 1)
+	c.ruleMeltPollCompleteness("R6")
 	R.Rule("R3", "backends: a PaymentStatus with zero (Succeeded) status is returned only with a non-nil error", 12)
 	R.Rule("R4", "poll touches backend and storage only for PENDING quotes", 5)
 	R.Rule("R5", "proof-state check resolves pending quotes before its final reads", 2)
@@ -698,4 +700,22 @@ func (o *Origins) isErrorExit(b *ssa.BasicBlock) bool {
 		}
 	}
 	return true
+}
+
+// ruleMeltPollCompleteness: C05.R6. In the melt-quote state op every path to a success return either leaves
+// through "stored state != PENDING" or makes the payment-status look-up.
+func (c *Ctx) ruleMeltPollCompleteness(rule string) {
+	op := c.op(rule, "/v1/melt/quote/{method}/{quote_id}")
+	pend, ok := c.P.ConstVal("cashu/nuts/nut05", "Pending")
+	if op == nil || !ok {
+		return
+	}
+	notPending := &Cond{Name: "stored state is not PENDING", Match: func(f *Fact, _ *Origins) bool {
+		if f.Kind != "cmp" || f.Op.String() != "==" || !isField(f.A, "State") || f.B.K != "const" {
+			return false
+		}
+		return (!f.Pos && isConst(f.B, pend)) || (f.Pos && !isConst(f.B, pend))
+	}}
+	c.ruleMustHit(rule, "PENDING quote => payment status looked up", "a poll of a PENDING melt quote always asks the Lightning backend for the payment", op, []*Cond{notPending},
+		func(d *CallDesc) bool { m, ok := c.V.IsLNCall(d); return ok && m == c.V.StatusMeth })
 }
